@@ -144,6 +144,16 @@ func auxTargets() []target {
 			return err
 		}
 	}
+	twr := func(mk func() transform.Transformer) func([]byte) error {
+		return func(b []byte) error {
+			w := transform.NewWriter(io.Discard, mk())
+			_, err := w.Write(b)
+			if cerr := w.Close(); err == nil {
+				err = cerr
+			}
+			return err
+		}
+	}
 	out := []target{
 		{name: "cmpp.PeekHeader", call: func(b []byte) error { _, err := cmpp.PeekHeader(b); return err }},
 		{name: "smgp.PeekHeader", call: func(b []byte) error { _, err := smgp.PeekHeader(b); return err }},
@@ -185,6 +195,10 @@ func auxTargets() []target {
 		{name: "gsm7encoding.GSM7(unpacked).Decoder.String", allocPerOctet: 512, call: tstr(gsm7encoding.GSM7(false).NewDecoder())},
 		{name: "gsm7encoding.GSM7(packed).Encoder.String", allocPerOctet: 512, call: tstr(gsm7encoding.GSM7(true).NewEncoder())},
 		{name: "gsm7encoding.GSM7(unpacked).Encoder.String", allocPerOctet: 512, call: tstr(gsm7encoding.GSM7(false).NewEncoder())},
+		{name: "transform.Writer(GSM7(packed).Decoder)", call: twr(func() transform.Transformer { return gsm7encoding.GSM7(true).NewDecoder() })},
+		{name: "transform.Writer(GSM7(unpacked).Decoder)", call: twr(func() transform.Transformer { return gsm7encoding.GSM7(false).NewDecoder() })},
+		{name: "transform.Writer(GSM7(packed).Encoder)", call: twr(func() transform.Transformer { return gsm7encoding.GSM7(true).NewEncoder() })},
+		{name: "transform.Writer(GSM7(unpacked).Encoder)", call: twr(func() transform.Transformer { return gsm7encoding.GSM7(false).NewEncoder() })},
 		{name: "transform.Reader(GSM7(packed).Decoder)", call: trd(func() transform.Transformer { return gsm7encoding.GSM7(true).NewDecoder() })},
 		{name: "transform.Reader(GSM7(unpacked).Decoder)", call: trd(func() transform.Transformer { return gsm7encoding.GSM7(false).NewDecoder() })},
 		{name: "transform.Reader(GSM7(packed).Encoder)", call: trd(func() transform.Transformer { return gsm7encoding.GSM7(true).NewEncoder() })},
